@@ -271,7 +271,10 @@ func c10(e *Env) {
 	e.versionTables()
 	c.Floor("canonical-order", 3)
 	c.Floor("write-ownership", 36)
-	e.keepRules("write-ownership", "names-readers", "encode-order", "encode-emission", "encode-guard", "encode-emissions", "encode-error", "encode-nil", "string-is-encode", "code-table", "parse", "canonical-order", "version-table", "version-prefix", "constructor-default", "wiring", "arm-parser")
+	e.keepRules("write-ownership", "names-readers", "encode-order", "encode-emission", "encode-guard", "encode-emissions", "encode-error", "encode-nil", "string-is-encode", "code-table", "parse", "canonical-order", "version-table", "version-prefix", "constructor-default", "wiring", "arm-parser",
+		// decode-encode-decode: the encoding of an accepted vector must be accepted again - no token of a canonical
+		// vector may be refused for a reason the specification does not name (an arm testing against the wrong constant)
+		"arm-value", "reject-path")
 	c.Floor("encode-order", 6)
 	c.Floor("encode-emission", 36)
 	c.Floor("encode-guard", 36)
@@ -295,7 +298,10 @@ func c11(e *Env) {
 		}
 	}
 	e.sentinelProvenance()
-	e.keepRules("parse", "token-split-kind", "sentinel-pairing", "deferred-error", "reject-path", "sentinel-provenance", "sentinel-distinct", "version-prefix", "duplicate-test", "token-shape", "decode-one", "decoder-analysis", "table-immutability", "group-emptiness")
+	e.keepRules("parse", "token-split-kind", "sentinel-pairing", "deferred-error", "reject-path", "sentinel-provenance", "sentinel-distinct", "version-prefix", "duplicate-test", "token-shape", "decode-one", "decoder-analysis", "table-immutability", "group-emptiness",
+		// a repeated or malformed token of a lower level is reported by that level's own tests only if the higher
+		// level hands it down first
+		"delegation-first")
 	c.Floor("sentinel-pairing", 90)
 	c.Floor("deferred-error", 6)
 	c.Floor("sentinel-provenance", 18) // shared helpers (one decode loop for three levels) reduce the number of functions that return errors
